@@ -170,6 +170,9 @@ pub fn decode_names(bytes: &[u8]) -> Result<Names, String> {
             _ => {}
         }
     }
+    // an empty subsection is the same as an absent one
+    names.flat.retain(|_, m| !m.is_empty());
+    names.indirect.retain(|_, m| !m.is_empty());
     Ok(names)
 }
 
